@@ -212,7 +212,7 @@ def handleObsPend (st : RibSt) (ids : List Nat) : RibSt :=
       match implRib.classify op with
       | .hold => st
       | .ok => st.monfail "c02" s!"held operation {id} is resolvable but unanswered"
-      | .err => st.monfail "c02" s!"held operation {id} can never be installed but is still held") st
+      | .err => st) st  -- not resolvable: answered FAILED by the next cascade
   let st := if ids.length > 0 then st.covr "pend.nonempty" else st
   if st.diverged then st else
   let mIds := st.model.pend.map (·.1)
